@@ -1340,10 +1340,20 @@ def refit_oracle(ctx, A, tA, B, t, vt, counts, rng):
         with time_limit(3 * FIT_TIMEOUT_S), poisoned_empty(S, S):
             m = VineCopula(vt)
             m.fit(A, truncated=tA)
+            # the object is USED between the fits (sampling, likelihood): caches filled by use must not survive a refit
+            try:
+                m.set_random_state(1)
+                with np.errstate(all='ignore'):
+                    m.sample(6)
+                    m.get_likelihood(np.full((1, A.shape[1]), 0.5))
+            except Exception:  # noqa
+                pass
+            finally:
+                m.random_state = None
     except Exception:  # noqa
         counts['refused'] += 1
         return
-    inp = {'history': 'fit(A) then fit(B) on the same object', 'vine_type': vt, 'truncated_A': int(tA), 'truncated': int(t),
+    inp = {'history': 'fit(A), sample(6), get_likelihood, then fit(B) on the same object', 'vine_type': vt, 'truncated_A': int(tA), 'truncated': int(t),
            'A': {'columns': list(A.columns), 'rows': A.to_numpy().tolist()},
            'B': {'columns': list(B.columns), 'rows': B.to_numpy().tolist()}}
     try:
